@@ -269,6 +269,43 @@ def run (s : State) : List Act → Option State
     | some s' => run s' as
     | none => none
 
+/-! ### the specification carried along a history
+
+The map a user of the database expects: all writes of the current instance on top of the map its ancestor had at
+the `Checkpoint` call it was restored from. -/
+
+structure SpecSt where
+  /-- the expected map (newest write first, as in `Lsm.Spec`) -/
+  m : Spec := []
+  /-- the expected map at each `Checkpoint` call, newest call first -/
+  saved : List (Nat × Spec) := []
+
+def specAt (saved : List (Nat × Spec)) (id : Nat) : Spec := ((saved.find? (fun p => p.1 == id)).map (·.2)).getD []
+
+/-- the handle of checkpoint `id` was returned and the checkpoint is still retained by the running lineage -/
+def retainedDone (s : State) (id : Nat) : Bool := s.done.contains id && s.ckpts.any (fun c => c.id == id)
+
+def stepSpec (s : State) (sp : SpecSt) : Act → SpecSt
+  | .write del k v _ => { sp with m := specStep sp.m s.db.seq (if del then .del k else .put k v) }
+  | .checkpoint id => { sp with saved := (id, sp.m) :: sp.saved }
+  | .open id _ => { sp with m := specAt sp.saved id }
+  | _ => sp
+
+/-- an instance is only ever opened from a completed handle of a checkpoint that is still retained (what a job does) -/
+def guardOk (s : State) : Act → Bool
+  | .open id _ => retainedDone s id
+  | _ => true
+
+/-- histories with their specification -/
+def runSpec (s : State) (sp : SpecSt) : List Act → Option (State × SpecSt)
+  | [] => some (s, sp)
+  | a :: as =>
+    if guardOk s a then
+      match step s a with
+      | some s' => runSpec s' (stepSpec s sp a) as
+      | none => none
+    else none
+
 /-- the `recovery.Checkpoint` that `DB.Checkpoint(id)` records in state `s` -/
 def capture (s : State) (id : Nat) : Ckpt := ⟨id, s.db.levels, s.wal.id, s.latest, s.db.seq, s.wal.entries⟩
 
